@@ -11,6 +11,10 @@ TRUSTED_BASE = [
 
 COMPONENTS = {
     "xxh": dict(builds=["implrun"], timeout=900),
+    "cmp": dict(builds=["implrun"], timeout=1500),
+    "ws": dict(builds=["implrun"], timeout=1500),
+    "rs": dict(builds=["implrun"], timeout=1500),
+    "cr": dict(builds=["implrun"], timeout=1500),
     "dec": dict(builds=["implrun", "implrun_noasm"], prefix={"implrun": "a_", "implrun_noasm": "p_"}, timeout=1200),
 }
 
